@@ -40,9 +40,11 @@ type vLock struct {
 	releaseCalls int
 	releaseErr   error
 	heldAtSave   bool
+	expiration   time.Duration // what the loader asked for
 }
 
-func (l *vLock) Obtain(_ context.Context, _ time.Duration) error {
+func (l *vLock) Obtain(_ context.Context, expiration time.Duration) error {
+	l.expiration = expiration
 	if l.obtainCalls == 0 {
 		l.busyRounds = ndChoice("lock-busy-rounds", 3)
 		if ndBool("lock-obtain-fails") {
